@@ -534,6 +534,7 @@ def rule_leaf_occupancy(ctx, rule='R15.13'):
 
 def run(ctx):
     from . import edges
+    edges.rule_box_face_strictness(ctx, 'R15.14')    # a particle on a face of the box is inside, for every test
     edges.rule_threshold_siblings(ctx, 'R01.13')     # one quantity, one literal, one line: leaf test of tree cells
     rule_leaf_occupancy(ctx)
     rule_update_when_flagged(ctx)
